@@ -295,7 +295,7 @@ def check_properties_file(prop, workdir):
     vfile = os.path.join(COQ, prop.COQ_PROPS)
     src = open(vfile).read()
     names = [m.group(2) for m in THEOREM_RE.finditer(src)]
-    rc, out = coqc_file(vfile, timeout=900, out_vo=os.path.join(workdir, "props.vo"))
+    rc, out = coqc_file(vfile, timeout=900, out_vo=os.path.join(workdir, os.path.basename(vfile) + "o"))
     axioms = []
     closed = out.count("Closed under the global context")
     for m in re.finditer(r"(?s)Axioms:\s*\n(.*?)(?:\n\S|\Z)", out):
